@@ -341,7 +341,7 @@ func zvExpiry(run *core.Run, rng *core.Rand) {
 								b := zvNewBackend(c)
 								r, err := zvNewResolver(b, c)
 								if err != nil {
-									run.Inconclusive("cannot build resolver: " + err.Error())
+									zvSanityFail(run, "cannot build resolver: "+err.Error())
 									continue
 								}
 								x := &rt{c: c, b: b, r: r, secret: fmt.Sprintf("zv-rt-%d", len(rts))}
@@ -357,7 +357,7 @@ func zvExpiry(run *core.Run, rng *core.Rand) {
 		}
 	}
 	if time.Now().After(exp.Add(-500 * time.Millisecond)) {
-		run.Inconclusive("real-time expiry batch: warming took too long, tokens were about to expire")
+		zvSanityFail(run, "real-time expiry batch: warming took too long, tokens were about to expire")
 		return
 	}
 	time.Sleep(time.Until(exp) + time.Second)
@@ -366,12 +366,12 @@ func zvExpiry(run *core.Run, rng *core.Rand) {
 		run.Count("expiry_cases")
 		run.Count("expiry_realtime_cases")
 		if x.warm.Class != "derived" {
-			run.Inconclusive(fmt.Sprintf("real-time expiry: token was not honoured while still valid (%s) in case %s", core.JSON(x.warm), core.JSON(x.c)))
+			zvSanityFail(run, fmt.Sprintf("real-time expiry: token was not honoured while still valid (%s) in case %s", core.JSON(x.warm), core.JSON(x.c)))
 			continue
 		}
 		x.b.setRPC(x.c.RPC)
 		if !time.Now().After(exp) {
-			run.Inconclusive("real-time expiry: clock did not pass the expiration time")
+			zvSanityFail(run, "real-time expiry: clock did not pass the expiration time")
 			continue
 		}
 		o := zvResolve(x.r, x.secret, x.c.Via)
@@ -385,7 +385,7 @@ func zvExpiryCase(run *core.Run, c zvExpCase, n int) {
 	b := zvNewBackend(c)
 	r, err := zvNewResolver(b, c)
 	if err != nil {
-		run.Inconclusive("cannot build resolver: " + err.Error())
+		zvSanityFail(run, "cannot build resolver: "+err.Error())
 		return
 	}
 	now := time.Now()
@@ -406,7 +406,7 @@ func zvExpiryCase(run *core.Run, c zvExpCase, n int) {
 		o := zvResolve(r, twin, c.Via)
 		step("valid twin resolved", o)
 		if o.Class != "derived" {
-			run.Inconclusive(fmt.Sprintf("expiry harness: valid twin token not honoured (%s) in case %s", core.JSON(o), core.JSON(c)))
+			zvSanityFail(run, fmt.Sprintf("expiry harness: valid twin token not honoured (%s) in case %s", core.JSON(o), core.JSON(c)))
 			return
 		}
 		o = zvResolve(r, secret, c.Via)
@@ -423,7 +423,7 @@ func zvExpiryCase(run *core.Run, c zvExpCase, n int) {
 		o := zvResolve(r, secret, c.Via)
 		step("valid copy resolved", o)
 		if o.Class != "derived" {
-			run.Inconclusive(fmt.Sprintf("expiry harness: valid token not honoured (%s) in case %s", core.JSON(o), core.JSON(c)))
+			zvSanityFail(run, fmt.Sprintf("expiry harness: valid token not honoured (%s) in case %s", core.JSON(o), core.JSON(c)))
 			return
 		}
 		b.put(zvMkTok(secret, zvExpiryTime(c.Expiry, now), c.Via, c.TokenLocal))
@@ -439,7 +439,7 @@ func zvExpiryCase(run *core.Run, c zvExpCase, n int) {
 		run.Distinct("expiry-outcomes", fmt.Sprintf("valid/%s/%s/%s", c.State, c.RPC, o.Class))
 		// sanity of the harness: with a working RPC a valid token is honoured
 		if c.RPC == "ok" && o.Class != "derived" {
-			run.Inconclusive(fmt.Sprintf("expiry harness: valid token not honoured (%s) in case %s", core.JSON(o), core.JSON(c)))
+			zvSanityFail(run, fmt.Sprintf("expiry harness: valid token not honoured (%s) in case %s", core.JSON(o), core.JSON(c)))
 		}
 		if o.Class == "derived" {
 			run.Count("valid_token_honoured")
